@@ -285,6 +285,13 @@ func TestC12Client(t *testing.T) {
 		if err != nil {
 			t.Fatal(err)
 		}
+		// positive controls (untampered log, valid SCT, the log's own checkpoint)
+		// must succeed: they use a patient client so that a loaded machine cannot
+		// turn a slow answer into a refusal
+		patient, err := sunlight.NewClient(&sunlight.ClientConfig{MonitoringPrefix: srv.srv.URL, PublicKey: l.env.Key.Public(), UserAgent: "verif-harness (verif@harness.test)", Timeout: 30 * time.Second})
+		if err != nil {
+			t.Fatal(err)
+		}
 		checkYield := func(call string, tm *c12Tamper, i int64, e *sunlight.LogEntry) bool {
 			r.Count("entries_yielded", 1)
 			if i < 0 || i >= int64(len(l.truth)) {
@@ -338,6 +345,13 @@ func TestC12Client(t *testing.T) {
 				}
 				cl := client
 				ctx, cancel := context.WithTimeout(context.Background(), 2*time.Second)
+				if kind == "none" {
+					cancel()
+					ctx, cancel = context.WithTimeout(context.Background(), 90*time.Second)
+					if mode == "http" {
+						cl = patient
+					}
+				}
 				starts := []int64{0, 1, 255, 256, int64(size) - 1, int64(size)}
 				start := starts[rng.Intn(len(starts))]
 				if start > int64(size) {
@@ -392,14 +406,14 @@ func TestC12Client(t *testing.T) {
 			}
 		}
 		// SCT inclusion checks against the pristine and a tampered server
-		c12SCTs(r, rng, l, cl, srv, tree, size)
-		c12Checkpoints(r, rng, l, other, cl, srv, size)
+		c12SCTs(r, rng, l, cl, patient, srv, tree, size)
+		c12Checkpoints(r, rng, l, other, cl, patient, srv, size)
 		l.env.Cleanup()
 		other.env.Cleanup()
 	}
 }
 
-func c12SCTs(r *Run, rng *Rng, l *c12Log, cl *sunlight.Client, srv *c12Server, tree tlog.Tree, size int) {
+func c12SCTs(r *Run, rng *Rng, l *c12Log, cl, patient *sunlight.Client, srv *c12Server, tree tlog.Tree, size int) {
 	cfg := &ctlog.Config{Key: l.env.Key}
 	m := l.objs
 	srv.cur.Store(&m)
@@ -439,7 +453,13 @@ func c12SCTs(r *Run, rng *Rng, l *c12Log, cl *sunlight.Client, srv *c12Server, t
 		}
 		for _, v := range vs {
 			ctx, cancel := context.WithTimeout(context.Background(), time.Second)
-			got, _, err := cl.CheckInclusion(ctx, tree, v.sct)
+			ccl := cl
+			if v.name == "valid" {
+				cancel()
+				ctx, cancel = context.WithTimeout(context.Background(), 90*time.Second)
+				ccl = patient
+			}
+			got, _, err := ccl.CheckInclusion(ctx, tree, v.sct)
 			cancel()
 			r.Eval(1)
 			r.DistinctKey(fmt.Sprintf("%d/sct/%s/ok=%v", size, v.name, err == nil))
@@ -519,7 +539,7 @@ func refJudgeSCT(sct []byte, l *c12Log, got *sunlight.LogEntry) string {
 	return ""
 }
 
-func c12Checkpoints(r *Run, rng *Rng, l *c12Log, other *c12Log, cl *sunlight.Client, srv *c12Server, size int) {
+func c12Checkpoints(r *Run, rng *Rng, l *c12Log, other *c12Log, cl, patient *sunlight.Client, srv *c12Server, size int) {
 	cfg := l.env.config(NewInst(l.env.W, "signer"))
 	sign := func(name string, foreignKey bool, n int64, root Hash, ts int64) []byte {
 		c := *cfg
@@ -556,7 +576,13 @@ func c12Checkpoints(r *Run, rng *Rng, l *c12Log, other *c12Log, cl *sunlight.Cli
 		m["checkpoint"] = cp
 		srv.cur.Store(&m)
 		ctx, cancel := context.WithTimeout(context.Background(), time.Second)
-		c, _, err := cl.Checkpoint(ctx)
+		ccl := cl
+		if name == "pristine" {
+			cancel()
+			ctx, cancel = context.WithTimeout(context.Background(), 90*time.Second)
+			ccl = patient
+		}
+		c, _, err := ccl.Checkpoint(ctx)
 		cancel()
 		r.Eval(1)
 		r.DistinctKey(fmt.Sprintf("%d/checkpoint/%s/ok=%v", size, name, err == nil))
